@@ -8,7 +8,7 @@
    recentlySent/priority rule of the code is one particular choice), ORecv (recvRoutine handles
    the next packet).  [descs] = the channels (id, SendQueueCapacity, RecvMessageCapacity). *)
 From Coq Require Import String List ZArith NArith Bool Lia.
-From TM Require Import Common.Hex Generated.Consts C17.Model C17.Proofs.
+From TM Require Import Common.Hex Generated.Consts C17.Model C17.Proofs C17.ValSet C17.ValSetProofs.
 Import ListNotations.
 Open Scope Z_scope.
 
@@ -254,4 +254,59 @@ Example C17_validated_refuted_f33 :
   let m := MNewValidBlock 5 0 {| psh_total := 1; psh_hashlen := 32 |}
                           {| ba_present := true; ba_bits := 1; ba_elems := 0 |} true in
   validate_basic_unfixed m = true /\ forallb demand_ok (demands m) = false /\ validate_basic m = false.
+Proof. vm_compute. repeat split. Qed.
+
+(* ------------------------------------------------------------------ F85: validator sets off the wire *)
+
+(* "Undecodable or semantically invalid input never crashes the node", for the validator sets
+   carried by light-client-attack evidence (inside proposed blocks, block-sync responses and
+   evidence messages) and by the answers of an RPC primary: the decoders
+   types.ValidatorSetFromProto and ValidatorSetFromExistingValidators (with the repair of finding
+   F85: the total voting power is summed with an explicit check instead of through
+   TotalVotingPower()'s panic) never panic, for ANY powers, keys and addresses on the wire; and
+   every set they accept is non-empty, has no negative power and a total — the true sum, nothing
+   clipped — of at most MaxTotalVotingPower: the well-formedness properties C07 and C08 assume
+   of a validator set holds for every set that enters through the wire. *)
+Theorem C17_wire_valsets_in_bounds :
+  (forall ws, valset_from_proto ws <> DPanic) /\
+  (forall vals, valset_from_existing vals <> DPanic) /\
+  (forall ws t, valset_from_proto ws = DOk t ->
+     ws_vals ws <> [] /\ vals_total_ok (map wv_power (ws_vals ws)) = true /\
+     powers_wf (map wv_power (ws_vals ws)) /\ t = sum_powers (map wv_power (ws_vals ws))) /\
+  (forall vals t, valset_from_existing vals = DOk t ->
+     vals <> [] /\ vals_total_ok (map wv_power vals) = true /\
+     powers_wf (map wv_power vals) /\ t = sum_powers (map wv_power vals)).
+Proof. exact wire_valsets_in_bounds. Qed.
+Print Assumptions C17_wire_valsets_in_bounds.
+
+(* the repair changes nothing else: on every input on which the old decoders did not panic, the
+   repaired ones give the same answer (C07/C08 transcribe the same file) *)
+Theorem C17_wire_valsets_repair_conservative :
+  (forall ws, valset_from_proto_f85 ws <> DPanic -> valset_from_proto ws = valset_from_proto_f85 ws) /\
+  (forall vals, valset_from_existing_f85 vals <> DPanic -> valset_from_existing vals = valset_from_existing_f85 vals).
+Proof. exact wire_valsets_repair_conservative. Qed.
+Print Assumptions C17_wire_valsets_repair_conservative.
+
+Definition ex_wval (p : Z) : wval := {| wv_power := p; wv_pubkey_ok := true; wv_addrlen := 20 |}.
+
+(* a set at the bound is accepted with its exact total; one unit more is an error *)
+Example C17_wire_valsets_nonvacuous :
+  let at_bound := {| ws_vals := [ex_wval (max_total_voting_power - 1); ex_wval 1]; ws_proposer := Some (ex_wval 1) |} in
+  let above := {| ws_vals := [ex_wval max_total_voting_power; ex_wval 1]; ws_proposer := Some (ex_wval 1) |} in
+  valset_from_proto at_bound = DOk max_total_voting_power /\
+  valset_from_proto above = DErr /\
+  valset_from_proto {| ws_vals := [ex_wval 9223372036854775807; ex_wval 9223372036854775807]; ws_proposer := Some (ex_wval 1) |} = DErr /\
+  valset_from_proto {| ws_vals := [ex_wval (-5); ex_wval 7]; ws_proposer := Some (ex_wval 7) |} = DErr /\
+  valset_from_existing [ex_wval 10; ex_wval 20] = DOk 30 /\
+  valset_from_existing [ex_wval max_total_voting_power; ex_wval 1] = DErr.
+Proof. vm_compute. repeat split. Qed.
+
+(* F85, the code as it was: a validator set with powers MaxTotalVotingPower and 1 — 226 bytes of
+   light-client-attack evidence — panics the decoder (inside addProposalBlockPart: the node
+   halts), and so does the constructor used for an RPC primary's answer *)
+Example C17_wire_valsets_refuted_f85 :
+  let above := {| ws_vals := [ex_wval max_total_voting_power; ex_wval 1]; ws_proposer := Some (ex_wval max_total_voting_power) |} in
+  valset_from_proto_f85 above = DPanic /\
+  valset_from_existing_f85 [ex_wval max_total_voting_power; ex_wval 1] = DPanic /\
+  valset_from_proto_f85 {| ws_vals := [ex_wval 9223372036854775807; ex_wval (-1); ex_wval 3]; ws_proposer := Some (ex_wval 3) |} = DPanic.
 Proof. vm_compute. repeat split. Qed.
